@@ -407,6 +407,15 @@ def build_batches(tier, rnd, paths):
                 first = rnd.choice(cls[rnd.choice(("a", "b", "c"))])
                 plan.append(("multi", [first] + [rnd.choice(cls["rand"]) for _ in range(n - 1)]))
             rnd.shuffle(plan)
+            # a second client whose connection the server application is slow to accept: the first relayed connection
+            # keeps flowing meanwhile (on a TLS-based server leg the relay's own connect needs the server application)
+            xid += 1
+            n1, n2 = rnd.choice((2, 3, 5)), rnd.choice((1, 2, 4))
+            pend = ["sizes 3 100 3000 65535" if not stream else "sizes 2 1000 70000", "con 1", "snd 1 c n 2", "rcv 1 s n 2", "con1 2",
+                    "snd 1 c n %d" % n1, "rcv 1 s n %d" % n1, "snd 1 s n %d" % n2, "rcv 1 c n %d" % n2, "con 2",
+                    "snd 2 c n 1", "rcv 2 s n 1", "snd 2 s n 1", "rcv 2 c n 1", "cls 1 c", "rcv 1 s end", "cls 1 s",
+                    "cls 2 c", "rcv 2 s end", "cls 2 s"]
+            execs.append(dict(x=xid, lines=pend, desc="pending second connection n1=%d n2=%d" % (n1, n2), kind="pend"))
             for kind, idxs in plan:
                 xid += 1
                 lines, desc = scenario(rnd, paths, idxs, stream, kind)
